@@ -378,7 +378,16 @@ func (x *Exec) sliceField(s *smt.Term, k int, sel string) *smt.Term {
 		return s.Args[k]
 	}
 	if s.Op == "ite" {
-		return x.b.Ite(s.Args[0], x.sliceField(s.Args[1], k, sel), x.sliceField(s.Args[2], k, sel))
+		key := [2]int{s.ID, 2000 + k}
+		if r, ok := x.projMemo[key]; ok {
+			return r
+		}
+		r := x.b.Ite(s.Args[0], x.sliceField(s.Args[1], k, sel), x.sliceField(s.Args[2], k, sel))
+		if x.projMemo == nil {
+			x.projMemo = map[[2]int]*smt.Term{}
+		}
+		x.projMemo[key] = r
+		return r
 	}
 	return x.b.App(sel, "Int", s)
 }
